@@ -254,6 +254,14 @@ func portfolio(realScript, intSmall string, timeoutSec int, noRetry bool, nlsatF
 			return r, false
 		}
 	}
+	smtScript0 := strings.Replace(realScript, "(check-sat)", "(check-sat-using smt)", 1)
+	if !nlsatFirst {
+		// stage 1: most queries are decided at once by the SMT core; only the rest get the full portfolio
+		r := runSolver(smtScript0, 3, "z3-new")
+		if r.status == "sat" || r.status == "unsat" {
+			return r, false
+		}
+	}
 	ctx, cancel := context.WithCancel(context.Background())
 	defer cancel()
 	type tagged struct {
